@@ -83,6 +83,14 @@ TRM ==
              /\ s' = RANext(s1, wc, Ev.err)
   /\ UNCHANGED << cfg, fr >> /\ Adv
 
+TJA ==
+  /\ Is("JA")
+  /\ IF s.wild THEN s' = [s EXCEPT !.failed = TRUE, !.nerr = s.nerr + 1]
+     ELSE LET j == JALoop(s, << >>, << >>, << >>, 0, Ev.tl) IN
+          /\ JAAllowed(j, Ev.n, Ev.err, Ev.obs, Ev.segs, Ev.rest, Ev.restOK)
+          /\ s' = IF j.w.res = "wild" THEN [j.s EXCEPT !.wild = TRUE, !.failed = TRUE, !.nerr = 1] ELSE JANext(j, Ev.err)
+  /\ UNCHANGED << cfg, fr >> /\ Adv
+
 TSRD == /\ Is("SRD") /\ Ev.err.cls = "nil" /\ UNCHANGED << cfg, fr, s >> /\ Adv
 
 TPanic == /\ Is("PANIC") /\ PanicAllowed(s)
@@ -90,7 +98,7 @@ TPanic == /\ Is("PANIC") /\ PanicAllowed(s)
 
 TInit == l = 1 /\ cfg = [role |-> "server"] /\ fr = << >> /\ s = S0
 
-TNext == TReset \/ TSRD \/ TPanic \/ TNR \/ TRD \/ TRA \/ TRM
+TNext == TReset \/ TJA \/ TSRD \/ TPanic \/ TNR \/ TRD \/ TRA \/ TRM
 
 TSpec == TInit /\ [][TNext]_tvars
 
